@@ -33,7 +33,9 @@ fn arg_val(args: &[String], name: &str) -> Option<String> {
 fn main() {
     let args: Vec<String> = std::env::args().skip(1).collect();
     // panics inside the library are caught and judged; keep the default hook quiet
-    std::panic::set_hook(Box::new(|_| {}));
+    if std::env::var("VSIM_PANIC_TRACE").is_err() {
+        std::panic::set_hook(Box::new(|_| {}));
+    }
     harness::silence_library_stdout();
     let code = match args.first().map(|s| s.as_str()) {
         Some("check") => {
